@@ -434,6 +434,10 @@ impl<T> Rc<T> {
     pub fn try_unwrap(this: Self) -> Result<T, Self> {
         if Rc::strong_count(&this) == 1 {
             unsafe {
+                // The allocation is given up without running `Rc::drop`:
+                // unlink it from the objects it has adopted or been adopted
+                // by and release its link table.
+                crate::drop::abandon_links(&this);
                 let val = ptr::read(&*this); // copy the contained object
                 #[cfg(cactusref_verif)]
                 crate::verif::ev(crate::verif::Event::MoveOutValue(this.ptr.as_ptr() as usize));
@@ -897,6 +901,10 @@ impl<T: Clone> Rc<T> {
             // Can just steal the data, all that's left is Weaks
             let mut rc = Self::new_uninit();
             unsafe {
+                // The old allocation is left to the remaining `Weak`s without
+                // running `Rc::drop`: unlink it from the objects it has
+                // adopted or been adopted by and release its link table.
+                crate::drop::abandon_links(this);
                 let data: &mut MaybeUninit<T> = mem::transmute(Rc::get_mut_unchecked(&mut rc));
                 data.as_mut_ptr().copy_from_nonoverlapping(&**this, 1);
                 #[cfg(cactusref_verif)]
